@@ -272,7 +272,7 @@ func (wtr *JSONWtr) writeValue(p *node.Path, v val.Value) error {
 		case val.FmtIdentityRef:
 			idtyStr := item.String()
 			leafMod := meta.OriginalModule(p.Meta)
-			bases := p.Meta.(meta.HasType).Type().Base()
+			bases := identityBases(p.Meta)
 			idty := meta.FindIdentity(bases, idtyStr)
 			if idty == nil {
 				return fmt.Errorf("could not find ident '%s'", idtyStr)
@@ -352,4 +352,14 @@ func (wtr *JSONWtr) writeString(s string) error {
 	writeString(clean, s, true)
 	_, ioErr := wtr._out.Write(clean.Bytes())
 	return ioErr
+}
+
+// bases an identityref value of the leaf is looked up in: the leaf's own, or those of
+// the leaf a leafref points to
+func identityBases(m meta.Definition) []*meta.Identity {
+	t := m.(meta.HasType).Type()
+	for hops := 0; t.Format().Single() == val.FmtLeafRef && hops < 64; hops++ {
+		t = t.Resolve()
+	}
+	return t.Base()
 }
